@@ -37,10 +37,11 @@ Reorder(cell, o) == [j \in DOMAIN cell |-> cell[o[j]]]
 
 \* vertex renumberings: all of them for the small pairs, three fixed ones otherwise
 SafeNumberings(nv) ==
-  IF nv <= 4 \/ (nv <= 6 /\ Tier = "thorough")
-  THEN {[v \in 1..nv |-> pi[v]] : pi \in Permutations(1..nv)}
+  IF nv <= 4 THEN {[v \in 1..nv |-> pi[v]] : pi \in Permutations(1..nv)}
   ELSE IF Tier = "quick" /\ nv >= 9 THEN {ReversePerm(nv)}
-  ELSE {[v \in 1..nv |-> v], ReversePerm(nv), RotateBy(nv, 2)}
+  ELSE IF Tier = "quick" \/ nv >= 9 THEN {[v \in 1..nv |-> v], ReversePerm(nv), RotateBy(nv, 2)}
+  ELSE {[v \in 1..nv |-> v], ReversePerm(nv), RotateBy(nv, 1), RotateBy(nv, 2), RotateBy(nv, 3),
+        [v \in 1..nv |-> IF v % 2 = 1 THEN (v + 1) \div 2 ELSE nv + 1 - v \div 2]}
 
 Base ==
   [tri2   |-> SubMesh("tri", LatP, TriCells([sq \in 1..4 |-> 0]), {1, 2}),
